@@ -450,17 +450,18 @@ impl Pow<Self> for LazyBigint {
 
     fn pow(self, rhs: Self) -> Self::Output {
         match (self, rhs) {
-            (Self::Short(s1), Self::Short(s2)) => {
-                s1.checked_pow(s2.try_into().unwrap()).map_or_else(
-                    || Self::Long(BigInt::from(s1).pow(BigUint::try_from(s2).unwrap())),
+            (Self::Short(s1), Self::Short(s2)) => u32::try_from(s2)
+                .ok()
+                .and_then(|e| s1.checked_pow(e))
+                .map_or_else(
+                    || Self::from(BigInt::from(s1).pow(BigUint::try_from(s2).unwrap())),
                     Self::Short,
-                )
-            }
+                ),
             (Self::Short(s), Self::Long(b)) => {
-                Self::Long(BigInt::from(s).pow(BigUint::try_from(b).unwrap()))
+                Self::from(BigInt::from(s).pow(BigUint::try_from(b).unwrap()))
             }
-            (Self::Long(b), Self::Short(s)) => Self::Long(b.pow(BigUint::try_from(s).unwrap())),
-            (Self::Long(b0), Self::Long(b1)) => Self::Long(b0.pow(BigUint::try_from(b1).unwrap())),
+            (Self::Long(b), Self::Short(s)) => Self::from(b.pow(BigUint::try_from(s).unwrap())),
+            (Self::Long(b0), Self::Long(b1)) => Self::from(b0.pow(BigUint::try_from(b1).unwrap())),
         }
     }
 }
